@@ -959,4 +959,40 @@ theorem merge_isRenaming {env src : Prog} {e : Nat} {out : MergeOut}
     IsStructRenaming out.ren src out.prog e out.entry :=
   merge_isStructRenaming h hw hk hs hd hfix hout hbt
 
+/-- **(T1 for merge) Merging preserves behaviour for all inputs and execution lengths.** `P'` is the environment's program
+    after the merge as the workers see it (the six tables `merge_bytecode` produced plus the recomputed lookup tables).
+    Under the side conditions of `merge_isRenaming`, with computed canonical-tuple tables and compatibility tables that
+    agree through the remap tables (`TablesAgree`, validated on every merge of the run; its core for every program is
+    `C10.merge_keeps_every_tag_verdict`), every run of the incoming program from its entry is matched step for step by a
+    related run of the merged program from the remapped entry. -/
+theorem merge_preserves_behaviour {env src P' : Prog} {e : Nat} {out : MergeOut}
+    (h : mergeBytecode env src e = some out) (hw : SrcWf src)
+    (hk : (out.ren.type.map (·.1)).Nodup ∧ (out.ren.tuple.map (·.1)).Nodup)
+    {rT rU : Nat → Nat} (hs : Stratified src rT rU)
+    (hd : src.consts.toList.Nodup ∧ src.fns.toList.Nodup ∧ src.types.toList.Nodup ∧ src.tuples.toList.Nodup ∧
+      (src.builtins.toList.map (·.name)).Nodup)
+    (hfix : ∀ i, i < 2 → ∃ T : TupleInfo, T.fields = [] ∧ src.tuples[i]? = some T ∧ env.tuples[i]? = some T)
+    (hout : out.prog.tuples.toList.Nodup)
+    (hbt : ∀ b b' B B', out.ren.builtin.get b = some b' → src.builtins[b]? = some B → out.prog.builtins[b']? = some B' →
+      out.ren.type.get B.paramType = some B'.paramType ∧ out.ren.type.get B.resultType = some B'.resultType)
+    (hfns : P'.fns = out.prog.fns) (hconsts : P'.consts = out.prog.consts) (htuples : P'.tuples = out.prog.tuples)
+    (hbuiltins : P'.builtins = out.prog.builtins) (htypes : P'.types = out.prog.types)
+    (hc : src.CanonComputed) (hc' : P'.CanonComputed) (ht : TablesAgree out.ren src P')
+    {B B' : BuiltinSem} (hB : BuiltinsCommute out.ren B B') {a a' : Val} (ha : RelVal out.ren a a') {t : St}
+    (hrun : Steps src B (St.start e a) t) (hsafe : ∀ u, Steps src B (St.start e a) u → IsTypeSafe src u) :
+    ∃ t', Steps P' B' (St.start out.entry a') t' ∧ RelSt out.ren t t' := by
+  have hsr := merge_isRenaming h hw hk hs hd hfix hout hbt
+  have hs' : IsStructRenaming out.ren src P' e out.entry :=
+    { entry := hsr.entry, inj_const := hsr.inj_const, inj_fn := hsr.inj_fn, inj_tuple := hsr.inj_tuple,
+      inj_type := hsr.inj_type, inj_builtin := hsr.inj_builtin, nil_fixed := hsr.nil_fixed, ok_fixed := hsr.ok_fixed,
+      fns := by rw [hfns]; exact hsr.fns
+      consts := by rw [hconsts]; exact hsr.consts
+      tuples := by rw [htuples]; exact hsr.tuples
+      builtins := by rw [hbuiltins]; exact hsr.builtins
+      types := by rw [htypes]; exact hsr.types }
+  have hρ := hs'.toIsRenaming ht.resources ht.compat ht.fparam ht.bparam
+    (canon_of_name_label_preservation hc hc' hs'.tuples)
+  exact run_commutes_with_renaming hρ hB hrun (start_related hρ ha) hsafe
+
+
 end C10
